@@ -624,7 +624,7 @@ func stackDeadlines(vecPath string, res *hx.Result) {
 	var wg sync.WaitGroup
 	var mu sync.Mutex
 	distinct := 0
-	sem := make(chan struct{}, 32)
+	sem := make(chan struct{}, 64)
 	for _, v := range vecs {
 		if res.NViol() >= 6 {
 			break // (a broken library may leave goroutines spinning in every pair: enough has been seen)
